@@ -151,11 +151,11 @@ def specPart (ws : List Nat) (tree : Option String) (q : List String) : String :
     | none => " ## tree=bad"
     | some (tight, v) =>
       let enc := decide (v.encode tight = ws)
-      let hyp := v.wf && v.leafOk tight && enc &&
+      let hyp := v.wf && enc &&
         (match q with
          | "value" :: _ | "strings" :: _ | ["file_info"] => queriesDetermined v
          | _ => true)
-      s!" ## enc={if enc then 1 else 0} hyp={if hyp then 1 else 0} wf={if v.wf then 1 else 0} leaf={if v.leafOk tight then 1 else 0} fits={if v.fits tight then 1 else 0} spec={specAnswer v q}"
+      s!" ## enc={if enc then 1 else 0} hyp={if hyp then 1 else 0} wf={if v.wf then 1 else 0} fits={if v.fits tight then 1 else 0} spec={specAnswer v q}"
 
 def answer (words : Sl) (q : List String) : String :=
   match q with
